@@ -31,9 +31,10 @@
 (*          (min: no tag delete API, no mount, no single-POST upload,      *)
 (*          pages of one entry)                                            *)
 (*   tmo    where the script timeout is configured: "default" (defaults:)  *)
-(*          "script" (per script) "none" (nowhere) "short" (300 ms for the *)
+(*          "script" (per script) "none" (nowhere) "short" (2 s for the    *)
 (*          first script only; with the tag `slow`, which the registries   *)
-(*          answer after 700 ms, its call is cut off by the timeout)       *)
+(*          do not answer, its only call is cut off by the timeout)        *)
+(*   cmd    "once" | "server": which command makes the dry run             *)
 (***************************************************************************)
 EXTENDS RegbotMC, Json
 
@@ -155,21 +156,26 @@ FailInside == {<<S("manifest.getList", "a1", "ix", "", ""), S("image.config", "$
                <<F("a1", "2"), S("manifest.getList", "@", "", "", ""), S("m:config", "", "", "", "")>>}
 FailError == {Sq(ErrorStmt), <<S("tag.ls", "a1", "", "", ""), ErrorStmt>>}
 FailScripts == FailBadArg \cup FailAbsent \cup FailNil \cup FailInside \cup FailError
-\* with tmo = "short": the call on the tag `slow` outlives the 300 ms of the first script
+\* with tmo = "short": the call on the tag `slow` is the only one of the first script and is cut
+\* off by its timeout (no other statement runs under the short timeout: no dependence on speed)
 FailTimeout == {Sq(S("manifest.head", "a1", "slow", "", "")), Sq(S("image.config", "a1", "slow", "", "")),
-                Sq(S("image.copy", "a1", "slow", "b1", "new")), <<S("tag.ls", "a1", "", "", ""), S("manifest.get", "a1", "slow", "", "")>>}
+                Sq(S("image.copy", "a1", "slow", "b1", "new")), Sq(S("manifest.get", "a1", "slow", "", ""))}
 FollowUps == {<<S("image.copy", "a1", "v1", "b1", "new"), S("image.config", "a1", "v1", "", "")>>,
               <<S("image.exportTar", "lay", "v1", "out", ""), S("tag.ls", "a1", "", "", "")>>,
               <<S("image.config", "lay", "v1", "", ""), S("image.importTar", "a2", "new", "good", "")>>}
 
 (* ------------------------------ configs -------------------------------- *)
-Cfg(w, p, ss) == [world |-> w, mt |-> "oci", feat |-> "full", tmo |-> "default", par |-> p, scripts |-> ss]
+Cfg(w, p, ss) == [world |-> w, mt |-> "oci", feat |-> "full", tmo |-> "default", cmd |-> "once", par |-> p, scripts |-> ss]
 One == Singles \cup Chains \cup AfterW \cup Guarded \cup Loops \cup Errors \cup Mixed \cup Forms
 UsesLay(s) == \E i \in 1..Len(s) : "lay" \in {s[i].l1, s[i].l2}
 IsoBase ==
   {Cfg("A", p, <<f, u>>) : p \in {0, 1}, f \in FailScripts, u \in FollowUps}
   \cup {Cfg("A", 2, <<f, f, u>>) : f \in FailScripts, u \in FollowUps}
   \cup {Cfg("A", p, <<u, f, v>>) : p \in {0, 1}, f \in FailInside, u \in FollowUps, v \in FollowUps}
+\* dry run made by `regbot server`: one write per binding and place, and failing scripts next to others
+ServerOne == {Sq(w) : w \in WProbe}
+             \cup {<<A1v1, S("manifest.put", t[1], t[2], "", "")>> : t \in {<<"b1", "new">>, <<"lay", "new">>}}
+             \cup {<<S("image.config", "a1", "v1", "", ""), S("blob.put", "b1", "", "$c", "")>>, <<S("tag.ls", "a1", "", "", ""), S("manifest.head", "lay", "v1", "", "")>>}
 Configs ==
   {Cfg(w, 0, <<s>>) : w \in {"A", "B"}, s \in One}
   \cup {Cfg("N", 0, <<s>>) : s \in {x \in One \ Mixed : UsesLay(x)}}
@@ -177,11 +183,13 @@ Configs ==
   \cup {[Cfg("A", 0, <<s>>) EXCEPT !.feat = "min"] : s \in Chains \cup AfterW \cup Guarded \cup Loops \cup Forms}
   \cup {[c EXCEPT !.tmo = t] : c \in IsoBase, t \in {"default", "script", "none"}}
   \cup {[Cfg("A", p, <<f, u>>) EXCEPT !.tmo = "short"] : p \in {0, 1, 2}, f \in FailTimeout, u \in FollowUps}
+  \cup {[Cfg("A", 0, <<s>>) EXCEPT !.cmd = "server"] : s \in ServerOne}
+  \cup {[Cfg("A", 1, <<f, u>>) EXCEPT !.cmd = "server"] : f \in FailInside \cup FailError, u \in FollowUps}
 
 (* ------------------------- execution by (D) ---------------------------- *)
 Pad(ss) == [s \in Scripts |-> IF s <= Len(ss) THEN ss[s] ELSE <<>>]
 GInit == \E c \in Configs, m \in {"dry", "nor"} :
-           /\ prog = Pad(c.scripts) /\ hist = <<>> /\ dims = [world |-> c.world, mt |-> c.mt, feat |-> c.feat, tmo |-> c.tmo]
+           /\ prog = Pad(c.scripts) /\ hist = <<>> /\ dims = [world |-> c.world, mt |-> c.mt, feat |-> c.feat, tmo |-> c.tmo, cmd |-> c.cmd]
            /\ InitWith(Worlds[c.world], m, c.par)
 Ext(s) == IF ip[s] < Len(prog[s]) THEN prog[s][ip[s] + 1] ELSE NoStmt
 BodyOf(s) == SubSeq(prog[s], ip[s] + 2, ip[s] + 1 + (IF Ext(s).l2 = "2" THEN 2 ELSE 1))
@@ -202,7 +210,7 @@ X(st) == IF st.t1 = "" THEN st.l1 ELSE st.l1 \o ":" \o st.t1
 Y(st) == IF st.t2 = "" THEN st.l2 ELSE st.l2 \o ":" \o st.t2
 Out(st) == [op |-> st.op, x |-> X(st), y |-> Y(st), p |-> st.p]
 NScripts == Cardinality({s \in Scripts : prog[s] # <<>>})
-Scn == [world |-> dims.world, mt |-> dims.mt, feat |-> dims.feat, tmo |-> dims.tmo, tags |-> W0.tag, par |-> par, mode |-> mode,
+Scn == [world |-> dims.world, mt |-> dims.mt, feat |-> dims.feat, tmo |-> dims.tmo, cmd |-> dims.cmd, tags |-> W0.tag, par |-> par, mode |-> mode,
         scripts |-> [s \in 1..NScripts |-> [i \in 1..Len(prog[s]) |-> Out(prog[s][i])]],
         exp |-> hist, final |-> W.tag, status |-> [s \in 1..NScripts |-> pc[s]], tar |-> tar]
 Emit == AllOver => PrintT(<<"SCN", ToJson(Scn)>>)
